@@ -43,3 +43,41 @@ def uniWs (c : Char) : Bool := classBits c &&& 8 != 0
 def uniAlnum (c : Char) : Bool := classBits c &&& 16 != 0
 
 end Cook
+
+namespace Cook
+
+def parseCps (s : String) : List Char :=
+  if s.isEmpty then [] else (s.splitOn ".").filterMap (fun p => p.toNat?.map Char.ofNat)
+
+/-- unicase folding table (generated), as an association array sorted by code point -/
+def foldTable : Array (Nat × List Char) :=
+  ((Gen.foldStr.splitOn ";").filterMap (fun e =>
+    match e.splitOn ">" with
+    | [a, b] => a.toNat?.map (fun n => (n, parseCps b))
+    | _ => none)).toArray
+
+def foldLookupAux (cp lo hi fuel : Nat) : Option (List Char) :=
+  match fuel with
+  | 0 => none
+  | fuel + 1 =>
+    if lo ≥ hi then none else
+    let mid := (lo + hi) / 2
+    match foldTable[mid]? with
+    | none => none
+    | some (k, v) =>
+      if cp < k then foldLookupAux cp lo mid fuel
+      else if cp > k then foldLookupAux cp (mid + 1) hi fuel
+      else some v
+
+def realFold (c : Char) : List Char := (foldLookupAux c.toNat 0 foldTable.size 64).getD [c]
+
+/-- keys of the bundled converter -/
+def unitKeyTable : List (List Char × Nat) :=
+  (Gen.unitKeysStr.splitOn ";").filterMap (fun e =>
+    match e.splitOn ":" with
+    | [k, q] => q.toNat?.map (fun n => (parseCps k, n))
+    | _ => none)
+
+def bundledFindUnit (k : List Char) : Option Nat := (unitKeyTable.find? (fun p => p.1 == k)).map (·.2)
+
+end Cook
